@@ -760,6 +760,23 @@ func (in *Interp) eval1(x Expr, e *env) (Val, *ctl) {
 		if c != nil {
 			return nil, c
 		}
+		if n.Op != "" {
+			o, ok := bv.(*ObjV)
+			if !ok || !o.Any {
+				return nil, unspec("%s on %T", n.Op, bv)
+			}
+			v, ok := o.F[n.Name]
+			if n.Op == "->" {
+				if !ok {
+					return &OptV{}, nil
+				}
+				return &OptV{Some: true, V: v}, nil
+			}
+			if !ok {
+				return nil, &ctl{k: ctlThrow, msg: "Called 'unwrap' on a 'null' option value", at: n}
+			}
+			return v, nil
+		}
 		if o, ok := bv.(*ObjV); ok && !o.Any {
 			if v, ok := o.F[n.Name]; ok {
 				return v, nil
@@ -1041,6 +1058,28 @@ func castVal(v Val, t *Type) (Val, *ctl) {
 	case KStr:
 		if s, ok := v.(string); ok {
 			return s, nil
+		}
+	case KOpt:
+		if o, ok := v.(*OptV); ok {
+			if !o.Some {
+				return &OptV{}, nil
+			}
+			inner, c := castVal(o.V, t.Elem)
+			if c != nil {
+				return nil, c
+			}
+			return &OptV{Some: true, V: inner}, nil
+		}
+	case KAnyObj:
+		if o, ok := v.(*ObjV); ok {
+			if o.Any {
+				return o, nil
+			}
+			n := &ObjV{F: map[string]Val{}, Any: true, Keys: append([]string{}, o.Keys...)}
+			for k, x := range o.F {
+				n.F[k] = x
+			}
+			return n, nil
 		}
 	}
 	return nil, unspec("cast %T as %s", v, t)
